@@ -150,7 +150,8 @@ def apply(drv: CL.Driver, a: Dict[str, Any], km, tk, inst):
         elif m == "copy_dst":
             base.copy(km.path(a["p"]), path)
         elif m == "copy_name_kw":
-            base.copy(km.path(a["p"]), base["/"], name=path.strip("/").split("/")[-1])
+            seg = path.strip("/").split("/")[-1]
+            base.copy(km.path(a["p"]), base["/"], name=seg if seg.startswith(CL.PREF) else CL.PREF + seg)
         else:
             raise RuntimeError("harness: unknown reserved method " + m)
     else:
@@ -219,9 +220,14 @@ def passthrough_names(raw_group) -> List[str]:
     return sorted(n for n in dir(raw_group) if not n.startswith("_") and n not in own)
 
 
-def gen(rng: random.Random, h5rec: Dict[str, Any], stage: int) -> Dict[str, Any]:
+def gen(rng: random.Random, h5rec: Dict[str, Any], stage: int, job: Dict[str, Any] = None) -> Dict[str, Any]:
+    job = job or {}
     tree, meta = h5rec["tree"], h5rec["meta"]
+    # flavours shift the mix between metadata, reserved-path and data operations
+    pa, pd_, prs = job.get("p_attach", 0.30), job.get("p_detach", 0.08), job.get("p_reserved", 0.07)
     r = rng.random()
+    r = 0.0 + (r / pa) * 0.30 if r < pa else (0.30 + (r - pa) / pd_ * 0.08 if r < pa + pd_ else
+        (0.38 + (r - pa - pd_) / prs * 0.07 if r < pa + pd_ + prs else 0.45 + (r - pa - pd_ - prs) / max(1e-9, 1 - pa - pd_ - prs) * 0.55))
     a: Dict[str, Any] = {"op": "", "p": [], "q": [], "key": "", "v": "", "without_meta": False, "schema": "",
                          "sver": [], "valid": True, "by": "", "cls": "", "as": "", "method": "", "rpath": "", "via": 0}
     nodes = [n["p"] for n in tree]
@@ -260,8 +266,8 @@ def gen(rng: random.Random, h5rec: Dict[str, Any], stage: int) -> Dict[str, Any]
         a["p"] = rng.choice([n["p"] for n in tree if n["p"]] or [["a"]])
         return a
     e = h5lib.gen_op(rng, tree, depth=3, values=["v1", "v2", "v3", "v8"],
-                     weights={"copy": 3.5, "move": 3, "delete": 3, "set_attr": 1.5, "del_attr": 0.7},
-                     allow_copy_into_self=False)
+                     weights=job.get("data_weights") or {"copy": 3.5, "move": 3, "delete": 3, "set_attr": 1.5, "del_attr": 0.7},
+                     allow_copy_into_self=False, attr_keys=job.get("attr_keys"))
     a.update({k: e[k] for k in e if k in a or k in ("how",)})
     if a["op"] == "copy":
         a["without_meta"] = rng.random() < 0.3
@@ -290,15 +296,35 @@ def run_history(job: Dict[str, Any], emit, scratch: Path, tk: h5lib.Tokens, env:
         while step < n:
             step += 1
             # silent boundary / reopen actions, independently per driver
+            broken = None
             for d in drvs:
                 x = rng.random()
-                if x < job.get("pb", 0.18):
-                    d.boundary()
-                elif x < job.get("pb", 0.18) + job.get("pr", 0.07):
-                    d.reopen()
+                try:
+                    if x < job.get("pb", 0.18):
+                        d.boundary()
+                    elif x < job.get("pb", 0.18) + job.get("pr", 0.07):
+                        d.reopen()
+                except Exception as ex:   # a patch boundary / reopen must always work
+                    broken = (d, type(ex).__name__ + ": " + str(ex)[:200])
+            if broken is not None:
+                base_a = {"op": "reopen", "p": [], "q": [], "key": "", "v": "", "without_meta": False, "schema": "",
+                          "sver": [], "valid": True, "by": "", "cls": "", "as": "", "method": "", "rpath": "", "via": 0}
+                out = []
+                for d in drvs:
+                    if d is broken[0]:
+                        o = {"drv": d.kind, "timeout": False, "obs_err": "boundary/reopen failed: " + broken[1],
+                             "tree": [], "meta": [], "links": [], "schemas": [], "pkgs": [], "empties": [], "weird": [],
+                             "uview": [], "uvisit": [], "uextra": [], "queries": [], "gets": [], "index_live": "",
+                             "index_fresh": "", "ok": False, "exc": broken[1]}
+                    else:
+                        o = observe(d, km, tk, rng, snap, originals, 0)
+                        o.update(ok=True, exc="")
+                    out.append(o)
+                emit({"t": "end", "tid": tid, "ev": {"op": "reopen", "a": base_a, "env": snap, "d": out}})
+                break
             if prev is None:
                 prev = observe(drvs[0], km, tk, rng, snap, originals, 0)
-            a = gen(rng, prev, env.stage)
+            a = gen(rng, prev, env.stage, job)
             inst = CL.instances(a["cls"], rng) if a["op"] == "attach" else None
             emit({"t": "begin", "tid": tid, "i": step, "e": a})
             recs = []
